@@ -87,6 +87,43 @@ pub fn check_api(f: &Fun, filter: char) -> Result<bool, Violation> {
     Ok(omitted)
 }
 
+/// several retain calls on ONE environment (filters in the given order, f and a second
+/// function sharing sub-diagrams): every result must stand in its own filter's relation
+pub fn check_sequence(f: &Fun, g: &Fun, order: &str) -> Check {
+    let cj = json!({"kind": "sequence", "f": f.to_json(), "g": g.to_json(), "order": order});
+    let v = |m: String| Violation::new(m, cj.clone());
+    guarded(&cj.clone(), || {
+        let env: BDDEnv<usize> = BDDEnv::new();
+        for (step, ch) in order.chars().enumerate() {
+            let which = if step % 2 == 0 { f } else { g };
+            let uni = which.ids_sorted();
+            let ft = which.over(&uni);
+            let h = which.intern(&env);
+            let r = env.retain_choice_bottom_up(Rc::clone(&h), filt(ch));
+            let rt = plain::table_usize(&r, &uni).map_err(|e| v(format!("step {}: {}", step, e)))?;
+            let ok = match ch {
+                't' => ft.leq(&rt),
+                'f' => rt.leq(&ft),
+                _ => r == h,
+            };
+            if !ok {
+                return Err(v(format!(
+                    "step {} (filter {}) on an environment that already served {:?}: result {} is not in the filter's relation to its operand",
+                    step,
+                    ch,
+                    &order[..step],
+                    plain::render(&r)
+                )));
+            }
+            let sh = plain::invariants(&r);
+            if !sh.ordered || !sh.reduced {
+                return Err(v(format!("step {}: result not ordered/reduced", step)));
+            }
+        }
+        Ok(())
+    })
+}
+
 /// `rsbdd --evaluate=<dnf f> -c <filter> -t`
 pub fn check_cli(f: &Fun, spelling: &str) -> Check {
     let cj = json!({"kind": "cli", "f": f.to_json(), "filter": spelling});
@@ -174,7 +211,7 @@ fn record(f: &Fun, filter: char, via: &str, omitted: bool, st: &mut Stats) {
 }
 
 pub fn run(ctx: &mut Ctx) -> Result<(), Violation> {
-    ctx.rule = "cases = (function f as truth table on ids, filter). Exhaustive: every function of <= 4 variables under id maps {0,1,2,3} and {1,3,4,8} x filters True/False/Any; random: functions of 5..8 variables; \
+    ctx.rule = "cases = (function f as truth table on ids, filter). Exhaustive: every function of <= 4 variables under id maps {0,1,2,3} and {1,3,4,8} x filters True/False/Any; sequences of four retain calls with every order of filters on ONE environment (all 3-variable functions); random: functions of 5..8 variables; \
                 CLI: `rsbdd --evaluate=<DNF of f> -c <spelling> -t` for sampled functions and every accepted spelling. Oracle on truth tables: True => f <= r, False => r <= f, Any => r is f; r ordered, reduced, tests only variables f depends on, consists of the environment's shared nodes. \
                 Non-trivial = at least one choice is actually omitted (r != f); distinct by (table, ids, filter)."
         .to_string();
@@ -197,6 +234,35 @@ pub fn run(ctx: &mut Ctx) -> Result<(), Violation> {
         });
         ctx.stage(&format!("api-all-functions-k{}", k), true, r)?;
     }
+
+    // several calls on one environment, all orders of the three filters (length 4)
+    let orders: Vec<String> = {
+        let mut v = Vec::new();
+        for a in ['t', 'f', 'a'] {
+            for b in ['t', 'f', 'a'] {
+                for c in ['t', 'f'] {
+                    for d in ['t', 'f'] {
+                        v.push([a, b, c, d].iter().collect());
+                    }
+                }
+            }
+        }
+        v
+    };
+    let no = orders.len() as u64;
+    let r = par_exhaustive(ctx, 256 * no, |i, st| {
+        let f = Fun::new(TT::from_bits(3, i % 256), vec![0, 1, 2]);
+        // g shares sub-diagrams with f: same table on shifted / overlapping ids
+        let g = Fun::new(TT::from_bits(3, (i % 256) ^ ((i / 256) * 37 % 256)), vec![0, 1, 2]);
+        let order = &orders[(i / 256) as usize];
+        st.eval();
+        st.class("sequence-of-filters-on-one-environment");
+        if !f.tt.is_const() && st.nontrivial(crate::util::mix(i, 20)) {
+            st.nt_sample(|| json!({"kind": "sequence", "f": f.to_json(), "g": g.to_json(), "order": order}));
+        }
+        check_sequence(&f, &g, order)
+    });
+    ctx.stage("filter-sequences-on-one-environment-3var", true, r)?;
 
     let cases = ctx.tier.pick(20_000, 400_000);
     let r = par_random(ctx, "random-api", cases, 80, |tape, st| {
@@ -238,6 +304,10 @@ pub fn replay(case: &Value) -> Check {
             check_api(&f, filter.chars().next().unwrap()).map(|_| ())
         }
         (Some("cli"), Some(f)) => check_cli(&f, filter),
+        (Some("sequence"), Some(f)) => match (Fun::from_json(&case["g"]), case["order"].as_str()) {
+            (Some(g), Some(o)) => check_sequence(&f, &g, o),
+            _ => Err(Violation::new("unreadable replay case", case.clone())),
+        },
         _ => Err(Violation::new("unreadable replay case", case.clone())),
     }
 }
